@@ -163,6 +163,36 @@ def run(ctx):
                 keys.append("path-segment-only-writable-with-its-namespace")
             ctx.fail({"source": text, "mode": "raw"}, prob, expected="parse(render(t)) == t",
                      observed=detail, keys=keys, cls="raw-spelling", sig=[prob, sorted(keys), text.split("/")[0][:6] if keys else text])
+    # every code point inside the quoted literal kinds whose content is free text
+    block = ctx.pick(4096, 512)
+    j = 0
+    for start in range(0, 0x110000, block):
+        body = "".join(chr(c) for c in range(start, min(start + block, 0x110000)) if c != 0x27)
+        for fr in ("s eq '%s'", "geo.length(geography'%s') gt 1", "f.g('%s', x) and y in ('k', '%s')",
+                   "s eq '" + "''" + "%s" + "''" + "' and u eq 'it''s%s'"):
+            j += 1
+            if not ctx.mine(j):
+                continue
+            ctx.count("evaluations")
+            ctx.count("sweep_codepoints", len(body))
+            ctx.cls("codepoint-in-literal")
+            prob, detail = trip(fr.replace("%s", body))
+            if prob is None:
+                continue
+            pl = body
+            while len(pl) > 1:
+                h = len(pl) // 2
+                if trip(fr.replace("%s", pl[:h]))[0] is not None:
+                    pl = pl[:h]
+                elif trip(fr.replace("%s", pl[h:]))[0] is not None:
+                    pl = pl[h:]
+                else:
+                    break
+            text = fr.replace("%s", pl)
+            prob, detail = trip(text)
+            ctx.fail({"source": text, "mode": "raw", "codepoints": ["U+%04X" % ord(c) for c in pl[:8]]},
+                     prob or "round-trip-differs", expected="parse(render(t)) == t", observed=repr(detail)[:300],
+                     cls="codepoint-in-literal", sig=["sweep", prob, fr[:8]])
     rng = ctx.rng("rand")
     o = fullgen.Opts()
     maxd = ctx.pick(7, 10)
